@@ -851,6 +851,10 @@ impl SavepointTransactionState {
         self.deleted_persistent.iter().map(|(id, _)| *id).collect()
     }
 
+    fn has_created(&self) -> bool {
+        !self.created_persistent.is_empty()
+    }
+
     fn has_created_or_deleted(&self) -> bool {
         !self.created_persistent.is_empty() || !self.deleted_persistent.is_empty()
     }
@@ -2038,6 +2042,19 @@ impl WriteTransaction {
 
             system_tree.finalize_dirty_checksums()?
         };
+
+        // A persistent savepoint created in this transaction captured the root of the latest
+        // commit. If that was a non-durable commit, some of its pages are still only buffered
+        // and would reach the file together with this commit's slot. Crash recovery verifies the
+        // checksums of the data and system trees, but not of the trees that savepoints
+        // reference, so a crash could persist the new slot without those pages and recovery
+        // would accept it, leaving the savepoint pointing at pages that were never written.
+        // Make them durable before the slot is written.
+        if self.savepoint_state.lock().unwrap().has_created()
+            && self.mem.pending_non_durable_commit()
+        {
+            self.mem.flush_buffered_pages()?;
+        }
 
         let page_allocator = self.page_allocator();
         self.mem.commit(
